@@ -60,6 +60,8 @@ def configs(tier):
             add(group='fresh_flags', cls=cls, mode=mode, storage='batch', d=2, q=1, T=2, prefill=1, _cost=400)
     for cls in CLASSES:
         add(group='given_objects', cls=cls, d=2, _cost=20)
+    for nm in ('str', 'int'):
+        add(group='many_features', names=nm, d=12 if tier == 'quick' else 40, _cost=200)
     for cls in ('IncrementalSage', 'IncrementalPFI'):
         for qc in (1, 2):
             add(group='override_history', cls=cls, d=2, q=qc, T=3 if tier == 'quick' else 4, _cost=3000)
@@ -348,3 +350,29 @@ def _override_history_batch(env, cfg):
 
 
 META['explanation'] += ' Further groups: objects handed to constructors are used as given (also when empty); every pattern of update_storage flags and of per-call n_inner overrides over the first calls; prefilled storages.'
+
+
+def _many_features(env, cfg):
+    """IncrementalPFI with many features and a default-value imputer (no feature orders to enumerate): keys, evaluation
+    budget and storage discipline far beyond the d of the other groups"""
+    from ixai.imputer import DefaultImputer
+    from ixai.storage import BatchStorage
+    d = cfg['d']
+    names = [f"f{i}" for i in range(d)] if cfg['names'] == 'str' else list(range(1, d + 1))
+    log = Log()
+    model = UFModel(env, names, faults=log)
+    loss = UFLoss(env, faults=log)
+    storage = BatchStorage()
+    imp = DefaultImputer(model, {n: env.real(f"dflt_{i}") for i, n in enumerate(names)})
+    ex = guarded(env, 'ctor', IncrementalPFI, model, loss, names, storage=storage, imputer=imp, n_inner_samples=2)
+    for t in range(3):
+        x = sym_row(env, names, f"x{t}")
+        y = env.real(f"y{t}")
+        log.sites.clear()
+        ret = guarded(env, 'explain_one', ex.explain_one, x, y)
+        env.claim('model_evaluations_many_features', log.sites.count('model') == (0 if t == 0 else 1 + d))
+        env.claim('loss_evaluations_many_features', log.sites.count('loss') == (0 if t == 0 else 1 + 2 * d))
+        if t >= 1:
+            env.claim('keys_are_the_given_names_many_features', _keys_exact(ex.importance_values, names) and
+                      list(ret.keys()).sort() == list(ex.importance_values.keys()).sort())
+        env.claim('storage_holds_every_observation', len(storage) == t + 1)
